@@ -117,6 +117,63 @@ def run(ctx):
                f"'{norm(muts[0], 60)}' mutates the library's own dict: every later element created from the type is affected", fi.loc(muts[0]) if muts else fi.loc())
     if n3 < 8:
         ctx.fail(f"LOAD-ALIAS: only {n3} callers of load_std_type found (confirmed: 10)")
+    rule_apply_always(ctx)
+
+
+def rule_apply_always(ctx):
+    """three more structural clauses of 'applied completely'"""
+    # (1) change_std_type has no shortcut that skips the application (the library entry or the element may have been edited since)
+    R = "CHANGE-ALWAYS"
+    ctx.rule(R, "change_std_type applies the type's parameters on every call: no early return (e.g. 'element already has this type') "
+                "precedes the application")
+    fi = ctx.repo.func("pandapower.std_types:change_std_type")
+    rets = [n for n in ast.walk(fi.node) if isinstance(n, ast.Return)]
+    loops = [n for n in fi.node.body if isinstance(n, ast.For)]
+    early = [r for r in rets if loops and r.lineno < loops[0].lineno]
+    ctx.ob(R, "pandapower.std_types::change_std_type::no-early-return", not early and bool(loops),
+           "the parameters are applied on every call" if not early and loops else
+           "change_std_type returns before applying the parameters on some path: after the library entry was overwritten "
+           "(create_std_type(overwrite=True)) or the element edited by hand, the element keeps stale values", fi.loc(early[0]) if early else fi.loc())
+    # (2) creating or overwriting a type replaces the library entry: the stored dict is never merged into in place
+    R2 = "TYPE-REPLACED"
+    ctx.rule(R2, "create_std_type stores the given data as the library entry (library[name] = data / library.update({name: data})); an "
+                 "existing entry is never updated in place (stale optional parameters of the old definition would survive)")
+    fc = ctx.repo.func("pandapower.std_types:create_std_type")
+    bad = None
+    good = False
+    for n in ast.walk(fc.node):
+        if isinstance(n, ast.Call) and isinstance(n.func, ast.Attribute) and n.func.attr in ("update", "setdefault"):
+            recv = n.func.value
+            # library[name].update(..) / library.setdefault(name, ..).update(..) / library.get(name).update(..)
+            if isinstance(recv, (ast.Subscript, ast.Call)) and "library" in ast.unparse(recv):
+                bad = n
+            if isinstance(recv, ast.Name) and recv.id == "library" and n.func.attr == "update" and n.args and isinstance(n.args[0], ast.Dict):
+                good = True
+        if isinstance(n, ast.Assign) and isinstance(n.targets[0], ast.Subscript) and ast.unparse(n.targets[0].value) == "library":
+            good = True
+    ctx.ob(R2, "pandapower.std_types::create_std_type::entry-replaced", good and bad is None,
+           "the library entry is replaced by the given data" if good and bad is None else
+           f"`{ast.unparse(bad) if bad is not None else 'no replacing store'}`: an existing library entry is merged into instead of replaced", fc.loc(bad) if bad is not None else fc.loc())
+    # (3) batch creation from a list of types: optional parameters are applied per line if ANY of the listed types defines them
+    R3 = "LIST-OPTIONAL"
+    ctx.rule(R3, "create_lines with one type per line sets an optional (zero-sequence, alpha) column when any of the listed types defines "
+                 "it and reads it per line with .get(param, nan): a line keeps every parameter its own type defines")
+    fl = ctx.repo.func("pandapower.create.line_create:create_lines")
+    n3 = 0
+    for n in ast.walk(fl.node):
+        if isinstance(n, ast.If):
+            t = n.test
+            calls = [c for c in ast.walk(t) if isinstance(c, ast.Call) and isinstance(c.func, ast.Name) and c.func.id in ("any", "all")
+                     and c.args and isinstance(c.args[0], ast.GeneratorExp) and "lineparam" in ast.unparse(c.args[0])]
+            for c in calls:
+                n3 += 1
+                tolerant = all(".get(" in ast.unparse(st.value) for st in n.body if isinstance(st, ast.Assign))
+                ok = c.func.id == "any" and tolerant
+                ctx.ob(R3, f"pandapower.create.line_create::create_lines::{ast.unparse(c.args[0].elt)[:40]}", ok,
+                       "optional parameter applied when any listed type defines it, read per line with .get" if ok else
+                       f"`{ast.unparse(t)[:80]}`: with a mixed list of types the lines whose type defines the parameter lose it", fl.loc(n))
+    if n3 < 2:
+        ctx.fail(f"create_lines: only {n3} optional-parameter guards of the list branch found (confirmed: 2)")
 
 
 def variants(repo):
@@ -124,7 +181,12 @@ def variants(repo):
     lc = "pandapower/create/line_create.py"
     tc = "pandapower/create/trafo_create.py"
     V = Variant
-    return [
+    _extra = [
+        Variant("change_std_type skips elements that already have the type", st, in_function("change_std_type", replace_once("    for column in table.columns:", '    if table.at[eid, "std_type"] == name:\n        return\n    for column in table.columns:')), "CHANGE-ALWAYS"),
+        Variant("existing type merged in place", st, in_function("create_std_type", replace_once("library.update({name: data})", "library.setdefault(name, data).update(data)")), "TYPE-REPLACED"),
+        Variant("optional parameters only if all listed types define them", lc, in_function("create_lines", replace_once("if any(param in line_param_dict for line_param_dict in lineparam):", "if all(param in line_param_dict for line_param_dict in lineparam):")), "LIST-OPTIONAL"),
+    ]
+    return _extra + [
         V("creator mutates library dict", lc, in_function("create_line", replace_once('    lineparam = load_std_type(net, std_type, "line")\n', '    lineparam = load_std_type(net, std_type, "line")\n    lineparam["max_i_ka"] = lineparam["max_i_ka"] * df\n')), "LOAD-ALIAS"),
         V("creator ignores g", lc, in_function("create_line", lambda s: s.replace('entries["g_us_per_km"] = lineparam["g_us_per_km"] if "g_us_per_km" in lineparam else 0.0', 'entries["g_us_per_km"] = 0.0', 1)), None),
         V("trafo creator ignores pfe", tc, in_function("create_transformer", replace_once('        "pfe_kw": ti["pfe_kw"],\n', '        "pfe_kw": 0.,\n')), "basic_trafo_std_types::pfe_kw"),
